@@ -409,7 +409,25 @@ void register_some(Tape &t, State &s, Ctx &c, unsigned n)
 		int r = ac_register(nm.c_str());
 		if (r == 0) {
 			s.names.push_back(nm);
-			s.yields.push_back(t.enumerating ? 0 : (int)t.weighted({ 5, 1, 1, 1 }));
+			int code = t.enumerating ? 0 : (int)t.weighted({ 5, 1, 1, 1 });
+			// console.h: "Scratch buffer used by commands to store state" (after parsing their arguments):
+			// some commands overwrite all or part of the 80-byte scratch area with non-zero bytes
+			if (!t.enumerating && c.feat(2))
+				switch (t.weighted({ 3, 1, 1 })) {
+				case 1:
+					code |= 1 << 4 | 0 << 8 | 80 << 16;
+					c.cls("command-stores-state-in-scratch");
+					break;
+				case 2: {
+					unsigned a = t.choose(80), n = 1 + t.choose(80 - a);
+					code |= 1 << 4 | a << 8 | n << 16;
+					c.cls("command-stores-state-in-scratch");
+					break;
+				}
+				default:
+					break;
+				}
+			s.yields.push_back(code);
 		} else
 			c.fail("console_register(\"%s\") failed with %zu commands registered (capacity is 29)", nm.c_str(), s.names.size());
 	}
